@@ -111,6 +111,7 @@ package motion
 
 //@ ghost field MotionProcessor.run int
 //@ ghost field MotionProcessor.lastMotionFW int
+//@ ghost field MotionProcessor.gMotion bool
 
 //@ iface (l RecordingListener) MotionDetected
 //@   mode trusted
@@ -137,6 +138,7 @@ package motion
 //@   && !isnil(mp.recorder) && ref(mp.recorder) != 0
 //@   && ref(mp.recorder) != ref(mp.constantRecorder) && ref(mp.recorder) != ref(mp.snapshotRecorder)
 //@   && (mp.constantRecording ==> !isnil(mp.constantRecorder) && ref(mp.constantRecorder) != 0 && ref(mp.constantRecorder) != ref(mp.snapshotRecorder))
+//@   && (!mp.constantRecording ==> ref(mp.constantRecorder) == 0)
 //@   && !isnil(mp.snapshotRecorder) && ref(mp.snapshotRecorder) != 0
 
 //@ pred (mp *MotionProcessor) PInvM() := mp.recState() && mp.recRun()
@@ -223,7 +225,7 @@ package motion
 
 //@ func (mp *MotionProcessor) process
 //@   requires mp != nil && mp.PInv() && frame != nil && frame == mp.frameLoop.frames[mp.frameLoop.currentIndex]
-//@   modifies mp.triggered, mp.isRecording, mp.framesWritten, mp.writeUntil, mp.run, mp.lastMotionFW
+//@   modifies mp.triggered, mp.isRecording, mp.framesWritten, mp.writeUntil, mp.run, mp.lastMotionFW, mp.gMotion
 //@   modifies mp.frameLoop.currentIndex, mp.frameLoop.bufferFull, mp.frameLoop.oldest, mp.frameLoop.base, mp.frameLoop.mark, elems(mp.frameLoop.orderedFrames)
 //@   modifies mp.motionDetector.*, any(uint16), any(float32), any(cptvframe.Telemetry), mp.log.*
 //@   modifies mp.recorder.open, mp.recorder.inFile, mp.recorder.wfault, mp.recorder.starts, mp.recorder.startOK, mp.recorder.bg, mp.recorder.thresh
@@ -232,6 +234,7 @@ package motion
 //@   call WriteFrame#1 ghost seq = mp.frameLoop.n()
 //@   call WriteFrame#1 assert [C01] $1 == mp.frameLoop.frames[mp.frameLoop.currentIndex] && mp.frameLoop.seq(mp.frameLoop.currentIndex) == seq
 //@   call WriteFrame#1 assert [C01] !mp.recorder.wfault ==> seq == mp.recorder.next || (mp.recorder.inFile == 0 && seq >= mp.recorder.next)
+//@   ghost_exit mp.gMotion = m
 //@   ghost_exit mp.run = (m && mp.recorder.stops == old(mp.recorder.stops)) ? old(mp.run) + 1 : 0
 //@   ghost_exit mp.lastMotionFW = mp.recorder.starts != old(mp.recorder.starts) ? 0 : (old(mp.isRecording) && m ? old(mp.framesWritten) : old(mp.lastMotionFW))
 //@   ensures mp.wired() && mp.frameLoop.n() == old(mp.frameLoop.n()) + 1
@@ -239,14 +242,14 @@ package motion
 //@   ensures [C03] mp.recLen()
 //@   ensures [C04] mp.recRun()
 //@   ensures [C12,C17] mp.PInvC() && mp.PInvS()
-//@   ensures [C04] (mp.recorder.starts == old(mp.recorder.starts) + 1) == (!old(mp.isRecording) && m && old(mp.run) + 1 >= mp.triggerFrames && mp.window.activeNow && old(mp.recorder.canRec) && old(mp.recorder.startOK))
+//@   ensures [C04] (mp.recorder.starts == old(mp.recorder.starts) + 1) == (!old(mp.isRecording) && mp.gMotion && old(mp.run) + 1 >= mp.triggerFrames && mp.window.activeNow && old(mp.recorder.canRec) && old(mp.recorder.startOK))
 //@   ensures [C04] mp.recorder.starts == old(mp.recorder.starts) || mp.recorder.starts == old(mp.recorder.starts) + 1
-//@   ensures [C04] mp.run == ((m && mp.recorder.stops == old(mp.recorder.stops)) ? old(mp.run) + 1 : 0)
+//@   ensures [C04] mp.run == ((mp.gMotion && mp.recorder.stops == old(mp.recorder.stops)) ? old(mp.run) + 1 : 0)
 //@   ensures [C02] mp.recorder.starts != old(mp.recorder.starts) && !mp.recorder.wfault ==> mp.recorder.first == max(old(mp.recorder.next), old(mp.frameLoop.n()) - (mp.frameLoop.size - 1))
 //@   ensures [C01] !old(mp.isRecording) && mp.recorder.starts == old(mp.recorder.starts) ==> mp.recorder.writes == old(mp.recorder.writes) && mp.recorder.next == old(mp.recorder.next)
 //@   ensures [C01] old(mp.isRecording) ==> mp.recorder.writes == old(mp.recorder.writes) + 1
 //@   ensures [C01] mp.recorder.starts != old(mp.recorder.starts) && !mp.recorder.wfault ==> mp.recorder.writes == old(mp.recorder.writes) + mp.recorder.inFile && mp.recorder.inFile == old(mp.frameLoop.n()) - mp.recorder.first + 1
-//@   ensures [C03] (old(mp.isRecording) || mp.recorder.starts != old(mp.recorder.starts)) && !mp.recorder.wfault ==> ((mp.recorder.stops == old(mp.recorder.stops) + 1) == ((mp.recorder.starts != old(mp.recorder.starts) ? 1 : old(mp.framesWritten) + 1) >= min((mp.recorder.starts != old(mp.recorder.starts) ? 0 : (m ? old(mp.framesWritten) : old(mp.lastMotionFW))) + mp.minFrames, mp.maxFrames)))
+//@   ensures [C03] (old(mp.isRecording) || mp.recorder.starts != old(mp.recorder.starts)) && !mp.recorder.wfault ==> ((mp.recorder.stops == old(mp.recorder.stops) + 1) == ((mp.recorder.starts != old(mp.recorder.starts) ? 1 : old(mp.framesWritten) + 1) >= min((mp.recorder.starts != old(mp.recorder.starts) ? 0 : (mp.gMotion ? old(mp.framesWritten) : old(mp.lastMotionFW))) + mp.minFrames, mp.maxFrames)))
 //@   ensures [C03] !(old(mp.isRecording) || mp.recorder.starts != old(mp.recorder.starts)) ==> mp.recorder.stops == old(mp.recorder.stops)
 //@   ensures [C03] mp.recorder.stops == old(mp.recorder.stops) || mp.recorder.stops == old(mp.recorder.stops) + 1
 
@@ -261,7 +264,8 @@ package motion
 //@   modifies mp.crFrames, mp.log.*
 //@   modifies mp.constantRecorder.open, mp.constantRecorder.inFile, mp.constantRecorder.wfault, mp.constantRecorder.starts, mp.constantRecorder.startOK, mp.constantRecorder.bg, mp.constantRecorder.thresh
 //@   modifies mp.constantRecorder.next, mp.constantRecorder.first, mp.constantRecorder.writes, mp.constantRecorder.stops, mp.constantRecorder.stopOK
-//@   ensures [C12,C17] mp.PInvC() && mp.log.inv()
+//@   ensures mp.wired()
+//@   ensures [C12,C17] mp.PInvC()
 //@   ensures [C17] mp.constantRecording ==> mp.constantRecorder.starts == old(mp.constantRecorder.starts) + ((old(mp.crFrames) == 0 && old(mp.constantRecorder.startOK)) ? 1 : 0)
 //@   ensures [C17] mp.constantRecording ==> mp.constantRecorder.writes == old(mp.constantRecorder.writes) + ((old(mp.crFrames) > 0 || old(mp.constantRecorder.startOK)) ? 1 : 0)
 //@   ensures [C17] mp.constantRecording && mp.constantRecorder.writes != old(mp.constantRecorder.writes) ==> ((mp.constantRecorder.stops == old(mp.constantRecorder.stops) + 1) == (old(mp.crFrames) + 1 > mp.maxFrames)) && (mp.constantRecorder.stops != old(mp.constantRecorder.stops) ==> mp.constantRecorder.inFile == mp.maxFrames + 1)
@@ -274,7 +278,8 @@ package motion
 //@   modifies mp.StartSnapshot, mp.SnapshotRecording, mp.snapshotFrames, mp.log.*
 //@   modifies mp.snapshotRecorder.open, mp.snapshotRecorder.inFile, mp.snapshotRecorder.wfault, mp.snapshotRecorder.starts, mp.snapshotRecorder.startOK, mp.snapshotRecorder.bg, mp.snapshotRecorder.thresh
 //@   modifies mp.snapshotRecorder.next, mp.snapshotRecorder.first, mp.snapshotRecorder.writes, mp.snapshotRecorder.stops, mp.snapshotRecorder.stopOK
-//@   ensures [C12,C17] mp.PInvS() && mp.log.inv()
+//@   ensures mp.wired()
+//@   ensures [C12,C17] mp.PInvS()
 //@   ensures [C17] old(mp.snapTidy()) && (mp.snapshotRecorder.stops != old(mp.snapshotRecorder.stops) ==> old(mp.snapshotRecorder.stopOK)) ==> mp.snapTidy()
 //@   ensures [C17] old(mp.snapTidy()) ==> mp.snapshotRecorder.starts == old(mp.snapshotRecorder.starts) + ((old(mp.StartSnapshot) && !old(mp.SnapshotRecording) && old(mp.snapshotRecorder.startOK)) ? 1 : 0)
 //@   ensures [C17] old(mp.snapTidy()) ==> mp.snapshotRecorder.writes == old(mp.snapshotRecorder.writes) + ((old(mp.SnapshotRecording) || (old(mp.StartSnapshot) && old(mp.snapshotRecorder.startOK))) ? 1 : 0)
@@ -282,3 +287,82 @@ package motion
 //@   ensures [C17] old(mp.snapTidy()) && mp.snapshotRecorder.inFile == 21 && mp.snapshotRecorder.writes != old(mp.snapshotRecorder.writes) ==> mp.snapshotRecorder.stops == old(mp.snapshotRecorder.stops) + 1
 //@   ensures [C17] ncalls("WriteFrame") == 1 ==> callarg("WriteFrame", 1, 1) == frame
 //@   ensures [C17] !old(mp.StartSnapshot) && !old(mp.SnapshotRecording) ==> ncalls("WriteFrame") == 0 && ncalls("StartRecording") == 0 && ncalls("StopRecording") == 0
+
+//@ func NewMotionDetector(args, previewFrames, camera)
+//@   mode trusted
+//@   allocates
+//@   ensures fresh(result)
+
+//@ func NewMotionProcessor
+//@   allocates
+//@   requires motionConf != nil && recorderConf != nil && !isnil(c)
+//@   requires 0 <= recorderConf.MinSecs && recorderConf.MinSecs <= recorderConf.MaxSecs && c.FPS() >= 1
+//@   requires recorderConf.PreviewSecs*c.FPS() + motionConf.TriggerFrames >= 1
+//@   requires !isnil(recorder) && ref(recorder) != 0 && !isnil(snapshotRecorder) && ref(snapshotRecorder) != 0
+//@   requires ref(recorder) != ref(constantRecorder) && ref(recorder) != ref(snapshotRecorder) && (ref(constantRecorder) != 0 ==> ref(constantRecorder) != ref(snapshotRecorder))
+//@   requires !recorder.open && recorder.next == 0 && !snapshotRecorder.open && !constantRecorder.open
+//@   ensures fresh(result) && result.PInv() && result.snapTidy() && !result.StartSnapshot
+//@   ensures [C03] result.minFrames == recorderConf.MinSecs*c.FPS() && result.maxFrames == recorderConf.MaxSecs*c.FPS()
+//@   ensures [C02] result.frameLoop.size == recorderConf.PreviewSecs*c.FPS() + motionConf.TriggerFrames && result.frameLoop.n() == 0
+//@   ensures [C04] result.triggerFrames == motionConf.TriggerFrames && result.run == 0 && !result.isRecording
+//@   ensures [C20] result.log.interval == 60000000000
+//@   ensures [C17] result.constantRecording == !(isnil(constantRecorder) || ref(constantRecorder) == 0) && result.crFrames == 0
+//@   ensures [C01,C05] result.recorder == recorder && result.constantRecorder == constantRecorder && result.snapshotRecorder == snapshotRecorder && result.parseFrame == parseFrame
+
+//@ func (mp *MotionProcessor) Reset
+//@   requires mp != nil && mp.PInv()
+//@   modifies mp.framesWritten, mp.writeUntil, mp.isRecording, mp.triggered, mp.run, mp.frameLoop.oldest, mp.frameLoop.mark, mp.recorder.open, mp.recorder.stops, mp.recorder.stopOK, mp.motionDetector.*
+//@   ghost_exit mp.run = old(mp.isRecording) ? 0 : old(mp.run)
+//@   ensures mp.wired()
+//@   ensures [C01,C02,C12,C13,C14] mp.recSeq() && !mp.isRecording && mp.frameLoop.n() == old(mp.frameLoop.n())
+//@   ensures [C03] mp.recLen()
+//@   ensures [C04] mp.recRun()
+//@   ensures [C12,C17] mp.PInvC() && mp.PInvS()
+//@   ensures [C14] ncalls("Reset") == 1 && ncalls("stopRecording") == 1
+//@   ensures [C12] mp.recorder.stops == old(mp.recorder.stops) + (old(mp.isRecording) ? 1 : 0) && mp.recorder.writes == old(mp.recorder.writes)
+
+//@ func (mp *MotionProcessor) GetRecentFrame
+//@   allocates
+//@   requires mp != nil && mp.wired() && mp.frameLoop.inv()
+//@   ensures result0 == mp.CurrentFrame && fresh(result1)
+
+//@ func (mp *MotionProcessor) Process
+//@   requires mp != nil && mp.PInv() && mp.parseFrame != nil
+//@   modifies mp.CurrentFrame, mp.crFrames, mp.StartSnapshot, mp.SnapshotRecording, mp.snapshotFrames
+//@   modifies mp.triggered, mp.isRecording, mp.framesWritten, mp.writeUntil, mp.run, mp.lastMotionFW, mp.gMotion
+//@   modifies mp.frameLoop.currentIndex, mp.frameLoop.bufferFull, mp.frameLoop.oldest, mp.frameLoop.base, mp.frameLoop.mark, elems(mp.frameLoop.orderedFrames)
+//@   modifies mp.motionDetector.*, any(uint16), any(float32), any(cptvframe.Telemetry), mp.log.*
+//@   modifies mp.recorder.open, mp.recorder.inFile, mp.recorder.wfault, mp.recorder.starts, mp.recorder.startOK, mp.recorder.bg, mp.recorder.thresh
+//@   modifies mp.recorder.next, mp.recorder.first, mp.recorder.writes, mp.recorder.stops, mp.recorder.stopOK
+//@   modifies mp.constantRecorder.open, mp.constantRecorder.inFile, mp.constantRecorder.wfault, mp.constantRecorder.starts, mp.constantRecorder.startOK, mp.constantRecorder.bg, mp.constantRecorder.thresh
+//@   modifies mp.constantRecorder.next, mp.constantRecorder.first, mp.constantRecorder.writes, mp.constantRecorder.stops, mp.constantRecorder.stopOK
+//@   modifies mp.snapshotRecorder.open, mp.snapshotRecorder.inFile, mp.snapshotRecorder.wfault, mp.snapshotRecorder.starts, mp.snapshotRecorder.startOK, mp.snapshotRecorder.bg, mp.snapshotRecorder.thresh
+//@   modifies mp.snapshotRecorder.next, mp.snapshotRecorder.first, mp.snapshotRecorder.writes, mp.snapshotRecorder.stops, mp.snapshotRecorder.stopOK
+//@   call parseFrame#1 bind perr
+//@   ghost_exit mp.run = result != nil ? (old(mp.isRecording) ? 0 : old(mp.run)) : mp.run
+//@   ensures mp.wired()
+//@   ensures [C01,C02,C12,C13] mp.recSeq()
+//@   ensures [C03] mp.recLen()
+//@   ensures [C04] mp.recRun()
+//@   ensures [C12,C17] mp.PInvC() && mp.PInvS()
+//@   ensures [C13] result == perr
+//@   ensures [C13] ncalls("parseFrame") == 1 && callarg("parseFrame", 1, 1) == rawFrame && callarg("parseFrame", 1, 2) == old(mp.frameLoop.frames[mp.frameLoop.currentIndex]) && callarg("parseFrame", 1, 3) == old(mp.motionDetector.start)
+//@   ensures [C13] result != nil ==> ncalls("process") == 0 && ncalls("processConstantRecorder") == 0 && ncalls("processSnapshot") == 0
+//@   ensures [C13] result != nil ==> mp.frameLoop.n() == old(mp.frameLoop.n()) && !mp.isRecording && !mp.recorder.open && (mp.constantRecording ==> !mp.constantRecorder.open)
+//@   ensures [C13] result != nil ==> mp.recorder.writes == old(mp.recorder.writes) && mp.constantRecorder.writes == old(mp.constantRecorder.writes) && mp.snapshotRecorder.writes == old(mp.snapshotRecorder.writes)
+//@   ensures [C13] result != nil ==> mp.recorder.stops == old(mp.recorder.stops) + (old(mp.isRecording) ? 1 : 0)
+//@   ensures [C13,C17] result == nil ==> ncalls("process") == 1 && ncalls("processConstantRecorder") == 1 && ncalls("processSnapshot") == 1 && mp.frameLoop.n() == old(mp.frameLoop.n()) + 1
+//@   ensures [C13,C17] ncalls("process") == 1 && ncalls("processConstantRecorder") == 1 && ncalls("processSnapshot") == 1 ==> callarg("process", 1, 1) == old(mp.frameLoop.frames[mp.frameLoop.currentIndex]) && callarg("processConstantRecorder", 1, 1) == callarg("process", 1, 1) && callarg("processSnapshot", 1, 1) == callarg("process", 1, 1)
+
+//@ func (mp *MotionProcessor) ProcessFrame
+//@   requires mp != nil && mp.PInv() && srcFrame != nil
+//@   modifies mp.triggered, mp.isRecording, mp.framesWritten, mp.writeUntil, mp.run, mp.lastMotionFW, mp.gMotion
+//@   modifies mp.frameLoop.currentIndex, mp.frameLoop.bufferFull, mp.frameLoop.oldest, mp.frameLoop.base, mp.frameLoop.mark, elems(mp.frameLoop.orderedFrames)
+//@   modifies mp.motionDetector.*, any(uint16), any(float32), any(cptvframe.Telemetry), mp.log.*
+//@   modifies mp.recorder.open, mp.recorder.inFile, mp.recorder.wfault, mp.recorder.starts, mp.recorder.startOK, mp.recorder.bg, mp.recorder.thresh
+//@   modifies mp.recorder.next, mp.recorder.first, mp.recorder.writes, mp.recorder.stops, mp.recorder.stopOK
+//@   ensures mp.wired() && mp.frameLoop.n() == old(mp.frameLoop.n()) + 1
+//@   ensures [C01,C02,C12] mp.recSeq()
+//@   ensures [C03] mp.recLen()
+//@   ensures [C04] mp.recRun()
+//@   ensures [C12,C17] mp.PInvC() && mp.PInvS()
